@@ -211,7 +211,7 @@ def lazy_columns(ctx) -> None:
     # never nested in the loop over another clause (HAVING without GROUP BY would never be visited)
     vq = prog.func(f'{cols.ref}.visit_query')
     visits = [c for c in core.walk_local(vq.node) if isinstance(c, ast.Call) and isinstance(c.func, ast.Attribute) and c.func.attr == 'accept' and core.src(c.args[0] if c.args else None) == 'self']
-    ctx.floor('C14.lazy-columns.clauses', len(visits), 5)
+    ctx.check(len(visits) >= 5, 'C14.lazy-columns', vq, f'the five clauses of a query (features, where, grouping, having, ordering) are each visited ({len(visits)} visits found)', vq.node, key='visit_query:clauses')
     for c in visits:
         subject = core.src(c.func.value)
         loops = [a for a in core.ancestors(c) if isinstance(a, (ast.For, ast.While))]
@@ -512,6 +512,9 @@ def outer_kinds(ctx) -> None:
     prog = ctx.prog
     kinds = [n for n, v in prog.cls(f'{FRAME}:Join.Kind').assigns.items() if n.isupper()]
     ctx.floor('C14.outer-kinds', len(kinds), 4)
+    if not prog.has_func(f'{PARSER}:Visitor._outer_joined'):
+        ctx.fail('C14.outer-kinds', f'{PARSER}:Visitor', 'the helper deciding which joins are outer (Visitor._outer_joined) is gone: the push-down decision cannot be established for every join kind', key='outer:helper')
+        return
     helper = prog.func(f'{PARSER}:Visitor._outer_joined')
     for k in kinds:
         says = _helper_says_outer(prog, helper, k)
@@ -520,7 +523,6 @@ def outer_kinds(ctx) -> None:
 
 
 def kind_guards(ctx) -> None:
-    outer_kinds(ctx)
     prog = ctx.prog
     tenv_ = types.TypeEnv(prog)
     resolver = calls.Resolver(prog)
@@ -655,3 +657,4 @@ def run(ctx) -> None:
     mods = [m for m in prog.modules if m.startswith((PARSER, LAZY, 'forml.io.dsl._struct.series'))]
     shared.r_truthy(ctx, tenv, prog.functions(mods), rule='R-TRUTHY', select=lambda fn, e, t: not shared.is_native(t))
     shared.argname_scope(ctx, ('forml.io.dsl.parser', 'forml.provider.feed.lazy'), floor=2)
+    outer_kinds(ctx)
